@@ -125,6 +125,7 @@ OBLIGATIONS = [
     native("n_c11_props_model", ["C11", "C08", "C09"], "C11.props", "EnergyProps::from(&Model) / Model::global_ventilation_rate / Space::area / Space::height_net / Wall::area_net", RN + "n_c11_props_model"),
     native("n_c11_scaling", ["C11"], "C11.scaling", "EnergyProps::from(&Model)", RN + "n_c11_scaling"),
     native("n_c15_check", ["C15"], "C15.check", "check(&Model) / EnergyIndicators::compute", RN + "n_c15_check"),
+    native("n_c15_made_of", ["C15"], "C15.made_of", "check(&Model) / EnergyIndicators::compute on models whose constructions are themselves incomplete", RN + "n_c15_made_of"),
     native("n_c16_purge", ["C16"], "C16.purge", "purge_unused(&mut Model)", RN + "n_c16_purge"),
     native("n_c13_bvh_equiv", ["C13", "C12"], "C13.bvh.equiv", "BVH::build / BVH::intersects / build_from_node_list / PreorderIter", BV + "n_c13_bvh_equiv", crash=True, timeout=120),
     native("n_c13_bvh_many", ["C13", "C14"], "C13.bvh.many", "BVH::build / partition_elements_by_centroid", BV + "n_c13_bvh_many", crash=True, timeout=120),
@@ -267,7 +268,7 @@ MANIFEST_TEXT = {
             "text": "Bounded: every sunlit fraction and every factor lies in [0,1] (never NaN), 1 for missing geometry, 0 behind the window, non-increasing when any of 5 obstacles is added (all 32 subsets), >= 0.97 and equal to the independent hour-by-hour mean when unobstructed, equal to the diffuse share when hidden at every hour.",
             "note": "radiation_for_surface (trigonometry) is used as given inside the oracle; partially obstructed values are not decided. " + _TB},
     "C13": {"technique": "Verus contracts (requires/ensures/invariant/decreases + ghost lemmas) on BVH::generate_node_list extracted verbatim every run; Kani proofs of the AABB algebra; bounded enumeration for tree reconstruction, ray/polygon tests and reveal surfaces",
-            "text": "Unbounded proof (Verus, any number of obstacles and any leaf size >= 1): the node-list builder terminates, has no arithmetic overflow/underflow and no failing unwrap, loses no element (leaf sizes add up to n), puts the parentless root first, gives every leaf 1..max elements and every entry an earlier Node as parent; the partition step partition_elements_by_centroid (verbatim) gives two non-empty halves for n >= 2, loses nothing and calls split_off inside its precondition - under contract P' of the plane step (every element goes to exactly one side), which is checked boundedly on the real function. PreorderIter::next (verbatim) discards exactly the subtrees whose box the ray misses and is the spec function step; over step a ghost theorem shows that the whole traversal returns exactly the nodes whose own and every ancestor's box is met. Kani proves join/containment/identity of boxes and that a ray hitting a box hits every enclosing box. Accelerated == exhaustive answers, point-in-polygon, ray/posed-polygon hits, box tightness and reveal surfaces are bounded obligations.",
+            "text": "Unbounded proof (Verus, any number of obstacles and any leaf size >= 1): the node-list builder terminates, has no arithmetic overflow/underflow and no failing unwrap, loses and duplicates no element (leaf sizes add up to n; the leaves together hold exactly the multiset of obstacles given), puts the parentless root first, gives every leaf 1..max elements and every entry an earlier Node as parent; the partition step partition_elements_by_centroid (verbatim) gives two non-empty halves for n >= 2, loses nothing and calls split_off inside its precondition - under contract P' of the plane step (every element goes to exactly one side), which is checked boundedly on the real function. PreorderIter::next (verbatim) discards exactly the subtrees whose box the ray misses and is the spec function step; over step a ghost theorem shows that the whole traversal returns exactly the nodes whose own and every ancestor's box is met. Kani proves join/containment/identity of boxes and that a ray hitting a box hits every enclosing box. Accelerated == exhaustive answers, point-in-polygon, ray/posed-polygon hits, box tightness and reveal surfaces are bounded obligations.",
             "note": _TB + "partition_elements_by_centroid_plane (f32 mean + Iterator::partition) is external_body in the Verus unit (assumed contract P': every element on exactly one side; twin obligation C13.partition bounded); build_from_node_list / PreorderIter use BTreeMap and Box recursion and are covered only by the bounded equivalence obligation."},
     "C14": {"technique": "panic-freedom / termination contract on Model::energy_indicators over every single structural edit (and a stated family of pairs) of a seed model's JSON tree, enumerated exhaustively (bounded); Kani/Verus panic-freedom of the leaves",
             "text": "Bounded: for every model obtained from a closed seed by one edit (1187) or a stated set of edit pairs (69k) that still loads, the computation returns without panic within 20 s and a later computation on the seed is unaffected; the closed seed gives finite figures that serialise and load back. Deductive part: panic-freedom and termination of the BVH builder (Verus) and of the ground formulas (Kani).",
